@@ -1,7 +1,3 @@
-import Tetl.C04.Model
-import Tetl.C04.Spec
-import TetlProofs.C08.Lemmas
-namespace Tetl.C04
-open Tetl
-
-end Tetl.C04
+/- C04 helper lemmas: L1 unsafe_set_size, L2 loops (fill/copy/swap_ranges), L3 rotate (needs Mathlib.Data.List.Rotate),
+   L4–L7 one lemma per member (`…_rep`), L8 the clamped semantics and `fits → clamped = std`. -/
+import TetlProofs.C04.L8
